@@ -47,8 +47,10 @@ TTC_EXP = {'type': 'function', 'name': 'Exponential', 'arguments': [0.1]}
 TTC_BER = {'type': 'function', 'name': 'Bernoulli', 'arguments': [0.5]}
 
 
-def gen_abstract(rng, guards):
+def gen_abstract(rng, guards, tier='quick'):
     n = rng.randint(1, 14) if rng.random() < 0.8 else rng.randint(1, 6)
+    if tier == 'thorough' and rng.random() < 0.3:
+        n = rng.randint(10, 30)
     nodes = []
     for i in range(n):
         typ = weighted(rng, [(5, 'or'), (5, 'and'), (3, 'defense'), (1, 'exist'), (1, 'notExist')])
@@ -65,7 +67,7 @@ def gen_abstract(rng, guards):
                 d['ttc'] = None
         nodes.append(d)
     edges = []
-    dens = rng.choice([0.08, 0.15, 0.3])
+    dens = rng.choice([0.08, 0.15, 0.3]) if n <= 14 else rng.choice([0.04, 0.08, 0.12])
     for i in range(n):
         for j in range(n):
             if i == j:
@@ -83,7 +85,7 @@ def new_run(rng, tier):
     guards = findings.active_guards('C08')
     cfg = {'prop': 'C08', 'guards': guards, 'steps': rng.randint(3, 6)}
     if rng.random() < 0.8:
-        return cfg, {'kind': 'abstract', 'graph': gen_abstract(rng, set(guards))}
+        return cfg, {'kind': 'abstract', 'graph': gen_abstract(rng, set(guards), tier)}
     # graph from a language + model
     spec, src = world_m.pick_language(rng, tier, p_corelang=0.01,
                                       gen_cfg={'expr_depth': 2, 'max_types': 4,
